@@ -36,7 +36,7 @@ def strategy_(draw, tier):
         enzymes=cveval.ALL_ENZYMES if wild else cveval.STRICT_ENZYMES,
         n_small=(2, 6), spread=d.choice([6, 12, 12, 20]),
         exceptions=(None, None, 'auto', 'trypsin_exception') if wild else (None,),
-        ref_kw=dict(utr_styles=('gencode', 'gencode', 'ensembl') if wild else ('gencode',)))
+        ref_kw=dict(utr_styles=('gencode', 'gencode', 'ensembl')))
 
 
 def strategy(tier):
@@ -52,6 +52,9 @@ def prop(case, ctx):
     try:
         res = cveval.run_tool(case, ctx)
     except Exception as e:     # pylint: disable=broad-except
+        if 'Failed to finish transcript' in str(e):
+            out.inconclusive = 'tool_timeout'      # wall-clock give-up, never a violation
+            return out
         bucket = cveval.crash_bucket(e)
         if any(r['kind'] == 'fusion' for r in case['records']) and 'expand_alignments' in bucket:
             out.known.append('C01-fusion-expand-alignments-crash')
